@@ -86,6 +86,93 @@ def c19():
     ])
 
 
+META["C16"] = dict(
+    text="(1) Digest differential: the same seeded corpus (generated YAML texts, chunk-edge cases, mutants, indicator soups) is loaded in three processes - AVX2 (default), SSE2 (SUCCINCTLY_SIMD=sse2 clamp), pure scalar (`scalar-yaml` build) - and a canonical dump of every public table of the YamlIndex plus JSON and YAML output is hashed per input group; all digests must be equal and the reported kernel width must differ between the processes (32/16/0). (2) Kernel monitor: each public yaml::simd kernel against a naive definition at every offset around chunk edges, in all three configurations and under Miri (base + avx2).",
+    note="NEON/SVE2 kernels cannot run on this host. The scalar build is the anchor for the differential; the kernel monitor anchors it to byte-at-a-time definitions written from the doc comments.",
+    technique=SAN + "cross-configuration digest differential + kernel-vs-naive-model monitor + Miri")
+
+
+@plan("C16")
+def c16():
+    sse2 = {"SUCCINCTLY_SIMD": "sse2"}
+    return Check("C16", [
+        Leg("lib-default", "c16k", shards=(2, 8), label="avx2:c16k", require={"level.width32": 1}),
+        Leg("lib-default", "c16k", shards=(2, 8), env=sse2, label="sse2:c16k", require={"level.width16": 1}),
+        Leg("lib-scalar-yaml", "c16k", shards=(2, 8), label="scalar:c16k", require={"level.scalar": 1}),
+        Leg("lib-default", "c16d", shards=(2, 8), label="avx2:c16d", digest_group="c16d", require={"level.width32": 1}),
+        Leg("lib-default", "c16d", shards=(2, 8), env=sse2, label="sse2:c16d", digest_group="c16d", require={"level.width16": 1}),
+        Leg("lib-scalar-yaml", "c16d", shards=(2, 8), label="scalar:c16d", digest_group="c16d", require={"level.scalar": 1}),
+        Leg("miri-base", "c16k", shards=(1, 2), tiers=("thorough",), timeout=MIRI_T),
+        Leg("miri-avx2", "c16k", shards=(1, 2), tiers=("thorough",), timeout=MIRI_T),
+    ])
+
+
+META["C08"] = dict(
+    text="An independent pushdown recogniser (RFC 8259 grammar, UTF-8 DFA, depth 128) decides accept / longest viable prefix L for every input; json::validate must accept exactly the accepted inputs, report offset <= L and the line/column of that offset. Workload: generated documents, EVERY single-byte replace/insert (256 values) / delete / truncation of ~1000 small documents, depth 120..136, all 65,536 \\uXXXX units alone and paired, UTF-8 sequence sweeps, soups, random bytes. The recogniser is itself cross-checked against serde_json, the in-tree JSONTestSuite data and a hand-derived table (disagreement = inconclusive). Miri leg in the thorough tier.",
+    note="Trusts the recogniser where it agrees with serde_json; paired-surrogate reading of RFC 8259 section 7 as the validator's own docs state. Line/column convention as documented by Position (1-indexed line, 1-indexed byte column; LF, CR, CRLF each one break).",
+    technique=SAN + "reference-recogniser monitor over exhaustive single-byte mutations + Miri")
+
+META["C28"] = dict(
+    text="For generated JSON documents without duplicate keys (keys from a hostile pool: keywords, non-ASCII, quotes, control characters, leading digits) every offset inside a scalar/key token or on an opening bracket is located; the printed expression is parsed and evaluated by the CLI's evaluator and must yield the node's ground-truth value (for a key: the value it names), byte_range must equal the recorded span, and at_offset / at_position must yield the token's own value.",
+    note="Ground truth by construction (generator cross-checked with serde_json). CLI wrapper `jq-locate` is a thin shell over the same library calls.",
+    technique=SAN + "ground-truth-by-construction monitor over every qualifying offset")
+
+
+@plan("C08")
+def c08():
+    return Check("C08", [
+        Leg("lib-default", "c08", shards=(2, 8)),
+        Leg("miri-base", "c08", shards=(1, 2), tiers=("thorough",), timeout=MIRI_T),
+    ])
+
+
+@plan("C28")
+def c28():
+    return Check("C28", [Leg("lib-default", "c28", shards=(2, 8))])
+
+
+META["C09"] = dict(
+    text="All four JSON string writers (jq, yq and their ASCII variants): every one of the 1,112,064 Unicode scalar values individually (exhaustive), plus strings with an escapable character at every position of every length 1..150/200, long clean spans and multi-byte characters straddling 32-byte edges; each body is decoded by serde_json back to the source string and tokenised so that 'escaped <=> in the convention's set' is checked per character. The vectorised scanner is compared with a naive first-index scan for every (special byte, position, start). Miri base (SSE2 kernel) and avx2 legs in the thorough tier.",
+    note="The per-kernel scanner entry points are crate-private; the dispatching entry and the writers are driven (AVX2 natively, SSE2 under Miri base). serde_json is the decoding reader.",
+    technique=SAN + "exhaustive-over-scalars round-trip monitor + kernel-vs-naive scan + Miri")
+
+META["C10"] = dict(
+    text="Library printers (OwnedValue Float/Int to_json, format_float_with_fraction, format_float_yq*, format_number_jq_compat, from_number_bytes) on random bit patterns, subnormals, powers of 2 and 10, n+-1ulp around 2^53/2^63/1e15..1e22 and every JSON number shape: the printed text must satisfy the number grammar and parse::<f64> back bit-identically (integers exactly; literals to the literal's double). A CLI leg pushes the same number classes through `jq .`, `jq '.[0]+0'`, `yq .` and `yq -o json`.",
+    note="Rust's str::parse::<f64> (correctly rounded) is the reading oracle; -0.0 compared by value as the property says 'same double'.",
+    technique=SAN + "print/parse round-trip monitor with bit-exact oracle + Miri")
+
+META["C13"] = dict(
+    text="A Unicode Table 3-7 rule model (cross-checked with std::str::from_utf8 on every case) decides well-formedness, valid_up_to and the violated-rule set; validate_utf8 / _simd (AVX2) / _scalar / _broadword must accept exactly the well-formed strings and return identical errors whose offset, kind and LF-based line/column match the model. Exhaustive: all 1- and 2-byte strings, hot 3/4-byte strings bare and straddling 32-byte edges, encode/decode for every code point 0..0x110400. Miri base + avx2 in the thorough tier.",
+    note="Line/column as the module documents (1-indexed, LF only, byte columns). One known finding: InvalidContinuationByte reports the offending byte instead of valid_up_to (pinned by in-tree tests); its exact closed-form offset is still checked.",
+    technique=SAN + "rule-table reference monitor + engine differential + Miri")
+
+
+@plan("C09")
+def c09():
+    return Check("C09", [
+        Leg("lib-default", "c09", shards=(1, 4)),
+        Leg("miri-base", "c09", shards=(1, 2), tiers=("thorough",), timeout=MIRI_T),
+        Leg("miri-avx2", "c09", shards=(1, 2), tiers=("thorough",), timeout=MIRI_T),
+    ])
+
+
+@plan("C10")
+def c10():
+    return Check("C10", [
+        Leg("lib-default", "c10", shards=(2, 8)),
+        Leg("miri-base", "c10", shards=(1, 1), tiers=("thorough",), timeout=MIRI_T),
+    ])
+
+
+@plan("C13")
+def c13():
+    return Check("C13", [
+        Leg("lib-default", "c13", shards=(2, 8)),
+        Leg("miri-base", "c13", shards=(1, 2), tiers=("thorough",), timeout=MIRI_T),
+        Leg("miri-avx2", "c13", shards=(1, 2), tiers=("thorough",), timeout=MIRI_T),
+    ])
+
+
 def setup():
     """MANIFEST.setup_cmd: pre-build every configuration used by the quick tier, then the rest."""
     import subprocess
